@@ -225,6 +225,24 @@ func colorMain(args []string) error {
 		find("palettecolour", c, cv, pal, pv)
 	}
 	find("empty", tcell.NewHexColor(0x123456), 0x123456, []tcell.Color{}, []int{})
+	// colours that are not colours (ColorReset, ColorNone, a flagless value) looked up in ordinary palettes: the
+	// answer is a member all the same (distances are not judged: all logged as 0)
+	for i, c := range []tcell.Color{tcell.ColorReset, tcell.ColorNone, tcell.ColorIsRGB | 0x102030, tcell.ColorSpecial | 7, tcell.Color(0x00ffffff)} {
+		for _, k := range []int{2, 8, 16, 256} {
+			pal, pv := mkpal(k)
+			res := tcell.FindColor(c, pal)
+			idx := 0
+			for j, p := range pal {
+				if p == res {
+					idx = j + 1
+					break
+				}
+			}
+			emit(trace.Ev{"ev": "Find", "kind": "specialc", "c": -1 - i, "pal": pv, "idx": idx, "d": make([]int, len(pv)), "isdefault": res == tcell.ColorDefault})
+		}
+		res := tcell.FindColor(c, []tcell.Color{})
+		emit(trace.Ev{"ev": "Find", "kind": "specialc-empty", "c": -1 - i, "pal": []int{}, "idx": 0, "d": []int{}, "isdefault": res == tcell.ColorDefault})
+	}
 	// palettes with members that are not valid colours (ColorReset, ColorNone, RGB bits without the valid flag):
 	// the answer is still a member; such a member is never "closer" (its distance is logged as -1)
 	specials := []tcell.Color{tcell.ColorReset, tcell.ColorNone, tcell.ColorIsRGB | 0x102030, tcell.ColorSpecial | 7}
